@@ -1143,7 +1143,7 @@ def part_c_threads(chk, corpus):
     rng = chk.rng
     thorough = chk.tier == "thorough"
     n_seeds = 8 if thorough else 3
-    n_tasks = 300 if thorough else 48
+    n_tasks = 300 if thorough else 40
     pool = [c for c in corpus if c["src"] != "tests-metadata"]
     total = 0
     seq_cache = {}
